@@ -141,8 +141,10 @@ class Kernel:
         self.at(self.now + int(d_us), fn, *args)
 
     # ------------------------------------------------------------- processes
-    def spawn(self, name, role, argv, addrs, env=None, san_env=None, stdin_data=None, stdin_closed=False, stdin_tty_keys=None):
+    def spawn(self, name, role, argv, addrs, env=None, san_env=None, stdin_data=None, stdin_closed=False, stdin_tty_keys=None, residue=None):
         p = Proc(name, role)
+        if residue is not None:
+            p.residue = residue      # (in force from the first datagram the program receives, i.e. also during its start-up)
         p.addrs = list(addrs)
         a, b = socket.socketpair(socket.AF_UNIX, socket.SOCK_STREAM)
         p.sock = a
